@@ -3,6 +3,7 @@ package catalog
 import (
 	"errors"
 	"fmt"
+	"strings"
 
 	jschemaLib "github.com/jsightapi/jsight-schema-go-library"
 	"github.com/jsightapi/jsight-schema-go-library/bytes"
@@ -661,6 +662,9 @@ func (c *Catalog) AddEnum(d *directive.Directive, e *enum.Enum) *jerr.JApiError 
 	return nil
 }
 
+// noteLineEnds: the line ends of a note are those of the catalog (LF), whatever the source file uses.
+var noteLineEnds = strings.NewReplacer("\r\n", "\n", "\r", "\n")
+
 func (*Catalog) enumDirectiveToUserRule(d *directive.Directive, e *enum.Enum) (*UserRule, error) {
 	vv, err := e.Values()
 	if err != nil {
@@ -675,7 +679,7 @@ func (*Catalog) enumDirectiveToUserRule(d *directive.Directive, e *enum.Enum) (*
 		r.Children = append(r.Children, Rule{
 			TokenType:   RuleTokenType(v.Type.ToTokenType()),
 			ScalarValue: v.Value.Unquote().String(),
-			Note:        v.Comment,
+			Note:        noteLineEnds.Replace(v.Comment),
 		})
 	}
 
